@@ -229,10 +229,15 @@ def check_case(case):
 
     if case["kind"] == "center":
         rows = build_center(case)
+        from vk import gen
+
+        # centring is defined per chromosome, not per run of rows: half of the cases hand the rows over interleaved,
+        # reversed, shuffled or with a few rows of the first chromosome stacked at the end (seeded change C15j cut the
+        # table wherever the chromosome name changes between consecutive rows)
+        rows = [rows[i] for i in gen.row_order(case, [r["chromosome"] for r in rows])]
         df = pd.DataFrame(rows)
         if not case["has_depth"]:
             df = df.drop(columns=["depth"])
-        from vk import gen
 
         df = gen.relabel(df, gen.spec_for(case))
         cna = CopyNumArray(df.copy(), {"sample_id": "s"})
